@@ -71,6 +71,30 @@ func c37OggCRC(b []byte) uint32 {
 	return crc
 }
 
+// c37OggFixSerial gives every page of a well-formed Ogg stream the same fixed serial number and
+// recomputes the page checksums: oggwriter draws the serial from the global random source, and a
+// seed file must be the same bytes in every process.
+func c37OggFixSerial(b []byte) []byte {
+	for p := 0; p+27 <= len(b) && string(b[p:p+4]) == "OggS"; {
+		nseg := int(b[p+26])
+		if p+27+nseg > len(b) {
+			break
+		}
+		size := 27 + nseg
+		for _, l := range b[p+27 : p+27+nseg] {
+			size += int(l)
+		}
+		if p+size > len(b) {
+			break
+		}
+		copy(b[p+14:p+18], []byte{0x44, 0x33, 0x22, 0x11})
+		copy(b[p+22:p+26], []byte{0, 0, 0, 0})
+		binary.LittleEndian.PutUint32(b[p+22:p+26], c37OggCRC(b[p:p+size]))
+		p += size
+	}
+	return b
+}
+
 func c37OggPage(headerType byte, granule uint64, serial, index uint32, payload []byte) []byte {
 	var segs []byte
 	n := len(payload)
@@ -210,7 +234,7 @@ func c37BuildSeeds() {
 			}
 			_ = w.Close()
 		}
-		b := append([]byte{}, buf.Bytes()...)
+		b := c37OggFixSerial(append([]byte{}, buf.Bytes()...))
 		add(&c37Seed{name: "ogg-writer", kind: "ogg", data: b, lenOffs: c37OggPageOffsets(b), minOK: 5})
 	}
 	// Ogg by hand: OpusHead (mapping family 1), OpusTags with comments, a 3-segment page, an empty page
